@@ -92,6 +92,50 @@ example : (((mergeSupers.body
     { name := 2, supers := [1], slotDefs := [(0, { name := 0, initargs := [], initform := none })] }).state.initForms.get? 0).bind
       (·.initform)) = some 11 := by decide
 
+/-! ## make-instance: shared-initialize -/
+
+theorem gen_setSlot (T : GClass) (sd : GSlot) (v : Option Val) (o : GObj) :
+    (setSlot.body T sd v o).state = { o with vars := setSlotF sd v o.vars } := setSlot_eq T sd v o
+
+/-- gen_sharedInitialize: the default shared-initialize method, as translated: it signals an error
+    exactly when a supplied initarg is declared by no slot or reaches a slot that has been filled;
+    otherwise the instance's slots are those left by three passes in this order — the supplied
+    initargs (every slot that declares one), the class's default initargs (slots not yet filled),
+    the initform table (slots still not filled). -/
+theorem gen_sharedInitialize (T : GClass) (argMap : AList Val) (s : sharedInitialize.St) :
+    match passArgs T argMap (siProj s) with
+    | none => ∃ s', sharedInitialize.body T argMap s = Ctl.ret s' 2
+    | some st1 => ∃ s', sharedInitialize.body T argMap s = Ctl.ret s' 0 ∧
+        siProj s' = passForms T (passDefaults T st1) := sharedInitialize_normal T argMap s
+
+/-- "from the matching initarg if supplied, otherwise …": a slot filled by a supplied initarg keeps
+    that value through the default-initarg and initform passes -/
+theorem gen_initarg_wins (T : GClass) (hk : ∀ kv ∈ T.initForms, kv.1 = kv.2.name) (st1 : SI) (x : Name)
+    (h : st1.2.has x = true) :
+    (passForms T (passDefaults T st1)).1.get? x = st1.1.get? x := by
+  obtain ⟨d1, d2⟩ := passDefaults_keeps_filled T x st1 h
+  rw [passForms_keeps_filled T hk x _ d2, d1]
+
+/-- "… otherwise from the most specific initform": a slot no initarg filled ends with the value of
+    its entry in the initform table (which holds the most specific initform: gen_initform_most_specific) -/
+theorem gen_initform_fills (T : GClass) (hk : ∀ kv ∈ T.initForms, kv.1 = kv.2.name)
+    (hnd : (T.initForms.map (·.1)).Nodup) (hcs : ∀ kv ∈ T.initForms, kv.2.classStore = false)
+    (st2 : SI) (x : Name) (sd : GSlot) (hx : (x, sd) ∈ T.initForms) (h : st2.2.has x = false) :
+    (passForms T st2).1.get? x = some (some (sd.initform.getD nilVal)) :=
+  passForms_fills T hk hnd hcs x sd st2 hx h
+
+-- slot 0 declares initarg 0 and has initform 1; slot 1 declares initargs 0, 1; the class has the
+-- default initarg 1 = 77: (make-instance c :k0 9) fills both slots from :k0, the default and the initform lose
+example : (match sharedInitialize.body
+      { name := 0, supers := [],
+        initArgs := [(0, [{ name := 0, initargs := [0], initform := some 1 }, { name := 1, initargs := [0, 1], initform := none }]),
+                     (1, [{ name := 1, initargs := [0, 1], initform := none }])],
+        initForms := [(0, { name := 0, initargs := [0], initform := some 1 })],
+        defaultInitArgs := [(1, 77)] }
+      [(0, 9)] { obj := { vars := [(0, some 1), (1, none)] } } with
+    | Ctl.ret s' 0 => s'.obj.vars
+    | _ => []) = [(0, some 9), (1, some 9)] := by decide
+
 /-! ## typep and the hierarchy of an instance use the class object's precedence list -/
 
 theorem gen_isA (T : GClass) (o : GObj) (k : Sym) : IsA T o k = decide (k ∈ T.precedence) := isA_eq T o k
